@@ -559,3 +559,96 @@ pub proof fn lemma_xfer_inv(w: World, from_a: Option<Address>, to_a: Option<Addr
         assert forall|t: CheckpointType| #[trigger] seq_ok(w4, t) by { assert(seq_ok(w, t)); }
     }
 }
+
+/// writing the delegatee of `acct`: its units leave the old delegate's sum and join the new one's
+pub proof fn lemma_eff_set_deleg(w: World, acct: Address, d: Address)
+    ensures ({
+        let w2 = pset(w, VotesStorageKey::Delegatee(acct), d.sv());
+        &&& w2.ledger_seq == w.ledger_seq
+        &&& forall|a: Address| #[trigger] v_units(w2, a) == v_units(w, a)
+        &&& forall|a: Address| #[trigger] v_delegatee(w2, a) == (if a == acct { Some(d) } else { v_delegatee(w, a) })
+        &&& gap_total(w2) == gap_total(w)
+        &&& forall|x: Address| #[trigger] gap_deleg(w2, x) == gap_deleg(w, x)
+                - (if x == d { v_units(w, acct) as int } else { 0 }) + (if v_delegatee(w, acct) == Some(x) { v_units(w, acct) as int } else { 0 })
+        &&& forall|t: CheckpointType| seq_ok(w, t) ==> #[trigger] seq_ok(w2, t)
+        &&& forall|t: CheckpointType, q: u32| q < w.ledger_seq ==> #[trigger] past_value(w2, t, q) == past_value(w, t, q)
+    }),
+{
+    broadcast use sdk_store;
+    let w2 = pset(w, VotesStorageKey::Delegatee(acct), d.sv());
+    let m = w.persistent;
+    assert(w2.persistent == m.insert(dk(acct), d.sv()));
+    assert forall|t: CheckpointType| true implies #[trigger] same_timeline(w, w2, t) by {
+        assert forall|i: u32| #[trigger] cp_at(w2, t, i) == cp_at(w, t, i) by {}
+    }
+    assert forall|t: CheckpointType| seq_ok(w, t) implies #[trigger] seq_ok(w2, t) by { assert(same_timeline(w, w2, t)); lemma_timeline_frame(w, w2, t); }
+    assert forall|t: CheckpointType, q: u32| q < w.ledger_seq implies #[trigger] past_value(w2, t, q) == past_value(w, t, q) by {
+        assert(same_timeline(w, w2, t)); lemma_timeline_frame(w, w2, t);
+    }
+    lemma_view_is_map(w, acct);
+    lemma_m_write_deleg(m, acct, d.sv(), d);
+    assert forall|a: Address| #[trigger] v_units(w2, a) == v_units(w, a) by {}
+    assert forall|a: Address| #[trigger] v_delegatee(w2, a) == (if a == acct { Some(d) } else { v_delegatee(w, a) }) by {}
+    assert(same_timeline(w, w2, t_total())); lemma_timeline_frame(w, w2, t_total());
+    assert forall|x: Address| #[trigger] gap_deleg(w2, x) == gap_deleg(w, x)
+                - (if x == d { v_units(w, acct) as int } else { 0 }) + (if v_delegatee(w, acct) == Some(x) { v_units(w, acct) as int } else { 0 }) by {
+        assert(same_timeline(w, w2, t_acct(x))); lemma_timeline_frame(w, w2, t_acct(x));
+        lemma_m_write_deleg(m, acct, d.sv(), x);
+    }
+}
+
+/// `delegate` preserves inv_v; exactly the delegation of `acct` changes (C13)
+pub proof fn lemma_delegate_inv(w: World, acct: Address, d: Address)
+    requires inv_v(w), delegate_guard(w, acct, d),
+    ensures
+        //@@ C13:lemma.delegate_inv
+        inv_v(delegate_post(w, acct, d)),
+        //@@ C13:lemma.delegate_exact_delegation
+        forall|a: Address| #[trigger] v_delegatee(delegate_post(w, acct, d), a) == (if a == acct { Some(d) } else { v_delegatee(w, a) }),
+        //@@ C13:lemma.delegate_keeps_units
+        forall|a: Address| #[trigger] v_units(delegate_post(w, acct, d), a) == v_units(w, a),
+        //@@ C13:lemma.delegate_keeps_past
+        forall|t: CheckpointType, q: u32| q < w.ledger_seq ==> #[trigger] past_value(delegate_post(w, acct, d), t, q) == past_value(w, t, q),
+        //@@ C13:lemma.delegate_needs_auth
+        delegate_post(w, acct, d).auths.contains(acct),
+        delegate_post(w, acct, d).ledger_seq == w.ledger_seq,
+{
+    let old_d = v_delegatee(w, acct);
+    let w1 = w_auth(w, acct);
+    let w2 = pset(w1, VotesStorageKey::Delegatee(acct), d.sv());
+    let w3 = delegate_pre(w, acct, d);
+    let u = v_units(w3, acct);
+    let w4 = delegate_post(w, acct, d);
+    lemma_eff_nostore(w, w1);
+    lemma_eff_set_deleg(w1, acct, d);
+    lemma_eff_nostore(w2, w3);
+    lemma_move(w3, old_d, Some(d), u);
+    assert(v_units(w3, acct) == v_units(w2, acct));
+    assert(v_units(w2, acct) == v_units(w1, acct));
+    assert(u == v_units(w, acct));
+    assert(v_delegatee(w1, acct) == old_d);
+    assert forall|a: Address| #[trigger] v_units(w4, a) == v_units(w, a) by {
+        assert(v_units(w4, a) == v_units(w3, a)); assert(v_units(w3, a) == v_units(w2, a)); assert(v_units(w2, a) == v_units(w1, a));
+    }
+    assert forall|a: Address| #[trigger] v_delegatee(w4, a) == (if a == acct { Some(d) } else { v_delegatee(w, a) }) by {
+        assert(v_delegatee(w4, a) == v_delegatee(w3, a)); assert(v_delegatee(w3, a) == v_delegatee(w2, a)); assert(v_delegatee(w1, a) == v_delegatee(w, a));
+    }
+    assert forall|t: CheckpointType| #[trigger] seq_ok(w4, t) by { assert(seq_ok(w, t)); assert(seq_ok(w1, t)); assert(seq_ok(w2, t)); assert(seq_ok(w3, t)); }
+    assert forall|t: CheckpointType, q: u32| q < w.ledger_seq implies #[trigger] past_value(w4, t, q) == past_value(w, t, q) by {
+        assert(past_value(w1, t, q) == past_value(w, t, q)); assert(past_value(w2, t, q) == past_value(w1, t, q));
+        assert(past_value(w3, t, q) == past_value(w2, t, q)); assert(past_value(w4, t, q) == past_value(w3, t, q));
+    }
+    assert(gap_total(w4) == gap_total(w3) && gap_total(w3) == gap_total(w2) && gap_total(w2) == gap_total(w1) && gap_total(w1) == gap_total(w));
+    assert forall|x: Address| #[trigger] cp_latest(w4, t_acct(x)) as int == sum_deleg(w4, x) by {
+        assert(gap_deleg(w, x) == 0);
+        assert(gap_deleg(w1, x) == gap_deleg(w, x));
+        assert(gap_deleg(w2, x) == gap_deleg(w1, x) - (if x == d { u as int } else { 0 }) + (if old_d == Some(x) { u as int } else { 0 }));
+        assert(gap_deleg(w3, x) == gap_deleg(w2, x));
+        assert(gap_deleg(w4, x) == gap_deleg(w3, x) + (if Some(d) == Some(x) { u as int } else { 0 }) - (if old_d == Some(x) { u as int } else { 0 }));
+    }
+    // the move does not touch the authorization set
+    lemma_move_auths(w3, old_d, Some(d), u);
+}
+pub proof fn lemma_move_auths(w: World, fd: Option<Address>, td: Option<Address>, amt: u128)
+    ensures move_post(w, fd, td, amt).auths == w.auths,
+{}
